@@ -126,20 +126,20 @@ def run(tier):
         "value, a mask, or more than one block; distinct = distinct call (input+config)."))
     # 1. the specification itself (TLC, exhaustive within the bounds)
     if tier == "quick":
-        ck.mc("GBReduce", MC.format(ng=2, vals="{1, 2, 3}", rows=5, blocks=3, kernels=ALLK, muc="TRUE", isf="TRUE"), "deep_n5")
+        ck.mc_bg("GBReduce", MC.format(ng=2, vals="{1, 2, 3}", rows=5, blocks=3, kernels=ALLK, muc="TRUE", isf="TRUE"), "deep_n5")
     else:
         ck.mc("GBReduce", MC.format(ng=2, vals="{1, 2, 3}", rows=7, blocks=4, kernels=ALLK, muc="TRUE", isf="TRUE"), "deep_n7", timeout=7200, heap="24g")
         ck.mc("GBReduce", MC.format(ng=3, vals="{1, 2}", rows=6, blocks=3, kernels=ALLK, muc="TRUE", isf="TRUE"), "deep_g3_n6", timeout=7200, heap="24g")
     # vacuity guards: the deviation of D5 must be refuted by TLC, for both null representations
-    ck.mc("GBReduce", MC.format(ng=2, vals="{1, 2}", rows=3, blocks=2, kernels='{"min"}', muc="FALSE", isf="TRUE"), "neg_merge_float", expect="BlocksAreSingle")
-    ck.mc("GBReduce", MC.format(ng=2, vals="{1, 2}", rows=3, blocks=2, kernels='{"first"}', muc="FALSE", isf="FALSE"), "neg_merge_int", expect="BlocksAreSingle")
+    ck.mc_bg("GBReduce", MC.format(ng=2, vals="{1, 2}", rows=3, blocks=2, kernels='{"min"}', muc="FALSE", isf="TRUE"), "neg_merge_float", expect="BlocksAreSingle", workers=1)
+    ck.mc_bg("GBReduce", MC.format(ng=2, vals="{1, 2}", rows=3, blocks=2, kernels='{"first"}', muc="FALSE", isf="FALSE"), "neg_merge_int", expect="BlocksAreSingle", workers=1)
 
     # 2. the implementation, replayed through the specification
     sched.install()
     A, B = build_cases(tier, ck.seed)
     warm = [c for c in A if c["mask"]["k"] == "none" and c["split"] == ("t", 1)][:9 * 40]
-    trA = runner.run_cases(kernels.run_case, A, warm_cases=warm)
-    trB = runner.run_cases(kernels.run_case, B)
+    trA = ck.drive(kernels.run_case, A, warm_cases=warm)
+    trB = ck.drive(kernels.run_case, B, group=lambda c: kernels.EMB[c['emb']].dtype.str if kernels.EMB[c['emb']].kind not in 'mM' else '<i8')
     ck.exhaustive = True
     ck.notes["exhaustive_part"] = f"A: {len(A)} calls (all inputs up to the stated length); B: {len(B)} sampled configurations"
     rej = ck.validate("Trace_GBReduce", trA + trB, trace_cfg(), "traces", nontrivial=nontrivial,
